@@ -217,10 +217,13 @@ def extract(c):
 
 
 # ----------------------------------------------------------------------------- strategies
-_txt = st.one_of(st.sampled_from(["Meeting", "a", "Ünï cödé", "x y z", "semi;colon", "com,ma", "co:lon", "quote\"d", "new\nline", "", "100%"]),
+_txt = st.one_of(st.sampled_from(["Meeting", "a", "Ünï cödé", "x y z", "semi;colon", "com,ma", "co:lon", "quote\"d", "new\nline", "", "100%", "q=is%3apr", "50%2c5", "%22quoted%22", "%5c"]),
                  st.text(alphabet=st.characters(blacklist_categories=("Cs", "Cc")), max_size=12))
 _safe_txt = st.sampled_from(["Meeting", "a", "Ünï cödé", "x y z", "co:lon", "", "100%", "Team sync", "tag-1"])
-_uri = st.sampled_from(["http://example.com/a", "mailto:a@example.com", "urn:uuid:1-2-3", "https://example.org/x?y=z#f", "CID:part1"])
+_uri = st.sampled_from(["http://example.com/a", "mailto:a@example.com", "urn:uuid:1-2-3", "https://example.org/x?y=z#f", "CID:part1",
+                        # URL-encoded characters are plain characters of a URI (lower-case forms; the four upper-case codes of RC-B stay out)
+                        "https://example.com/login?next=https:%2f%2fexample.com%2fa%2cb", "cid:part%3aone", "https://example.org/search?q=%22exact%20phrase%22",
+                        "file:///c:%5ctmp%5cnotes.txt", "https://example.org/a%3bb?c=%2F%20"])
 
 
 def s_value(kind, safe_text=False):
